@@ -9,6 +9,9 @@
 (*  HV {ty, v, src, st, t, got, plain}  conversion by field type: the abstract   *)
 (*     value v was delivered as text in source src; t / got = type code and     *)
 (*     encoding of the field as written                                         *)
+(*  HRV {ty, v, dst, st, gotv, inbody, others}  response side of the conversion  *)
+(*     table: the text delivered to header / cookie, read back by the lexical    *)
+(*     oracle, denotes the field's value; the field is omitted from the body     *)
 (*  HMMany {n, body, st, wrong}  n mapped root fields (beyond the native      *)
 (*     field cache): number of fields that did not get their value            *)
 EXTENDS HttpMap, HttpVal, TLC, TraceKit
@@ -44,6 +47,12 @@ Step ==
         /\ Chk(e.st = "ok", R("Converts", e.st))
         /\ Chk(e.st # "ok" \/ (e.t = x.t /\ e.got = Enc(x)), R("ValueByType", IF e.t # x.t THEN "wrong-type-code" ELSE "wrong-value"))
         /\ Chk(e.st # "ok" \/ e.src = "form" \/ e.plain, R("UnannotatedFromBody", "differs"))
+     ELSE IF e.ev = "HRV" THEN
+        LET R(lbl, got) == [tag |-> "MM", i |-> l, ev |-> "HRV", api |-> e.ty, label |-> lbl, exp |-> "", got |-> got, detail |-> e.dst] IN
+        /\ Chk(e.st = "ok", R("Delivers", e.st))
+        /\ Chk(e.st # "ok" \/ e.gotv = e.v, R("TextDenotesValue", "wrong-value"))
+        /\ Chk(e.st # "ok" \/ ~e.inbody, R("OmittedFromBody", "still-in-body"))
+        /\ Chk(e.st # "ok" \/ e.others, R("OtherFieldsInBody", "differs"))
      ELSE IF e.ev = "HMMany" THEN
         Chk(e.st = "ok" /\ e.wrong = 0, [tag |-> "MM", i |-> l, ev |-> "HMMany", api |-> IF e.body THEN "json-body" ELSE "no-body", label |-> "ManyMappedRootFields",
                                           exp |-> "", got |-> IF e.st # "ok" THEN e.st ELSE "wrong-fields", detail |-> ""])
